@@ -39,11 +39,24 @@ Fixpoint none_below (S : list N) (p : pt) : bool :=
   | PRep _ _ _ s | PMap _ _ _ s | PPar _ _ s | PArith _ _ _ _ s | PRev _ s => negb (in_S S (pid s)) && none_below S s
   end.
 
+(* below p only ATOMIC templates are in S.  Collapsing an atomic template is harmless everywhere: its sub-program is one
+   leaf, to_waveform hands that leaf back, so the compiled program is the same term (Proofs5.create_atom_collapse) *)
+Definition is_atom (p : pt) : bool := match p with PAtom _ _ _ _ => true | _ => false end.
+Fixpoint only_atoms_below (S : list N) (p : pt) : bool :=
+  match p with
+  | PAtom _ _ _ _ => true
+  | PSeq _ _ subs => forallb (fun s => (negb (in_S S (pid s)) || is_atom s) && only_atoms_below S s) subs
+  | PRep _ _ _ s | PMap _ _ _ s | PPar _ _ s | PArith _ _ _ _ s | PRev _ s =>
+      (negb (in_S S (pid s)) || is_atom s) && only_atoms_below S s
+  end.
+
 (* guard for the single-waveform theorem, following the compilation: X is the transformation that arrives at p.
    - a collapsed node needs the parallel-order guard for its arriving transformation (the collapse moves X from
      the leaves to the outside of the whole sub-waveform);
-   - below the inner template of a TimeReversalPT nothing is collapsed (finding `collapsed_inside_reversal`); the
-     inner template's own flag is ignored by the code and therefore not restricted. *)
+   - below the inner template of a TimeReversalPT no COMPOSITE template is collapsed (finding
+     `collapsed_inside_reversal`: the collapsed Sequence/Repetition/TransformingWaveform is wrapped in a
+     ReversedWaveform); collapsed atomic templates are allowed there; the inner template's own flag is ignored by the
+     code and therefore not restricted. *)
 Fixpoint guard_int (S : list N) (cm : chan -> chan) (X : list trafo) (p : pt) : bool :=
   let child (cm' : chan -> chan) (X' : list trafo) (s : pt) :=
     if in_S S (pid s) then guard_par X' cm' s && guard_int S cm' [] s else guard_int S cm' X' s in
@@ -54,7 +67,7 @@ Fixpoint guard_int (S : list N) (cm : chan -> chan) (X : list trafo) (p : pt) : 
   | PMap _ ren _ s => child (fun c => cm (ren_get ren c)) X s
   | PPar _ ov s => child cm (X ++ [TParallel (map (fun cv => (cm (fst cv), snd cv)) ov)]) s
   | PArith _ op l sc s => child cm (arith_steps op l sc (pt_chans s) cm ++ X) s
-  | PRev _ s => none_below S s
+  | PRev _ s => only_atoms_below S s
   end.
 (* (the root is compiled with no arriving transformation, so collapsing the root itself needs nothing extra) *)
 Definition guard_C05_single_waveform (S : list N) (p : pt) : bool := guard_int S (fun c => c) [] p.
